@@ -370,7 +370,8 @@ private:
   std::vector<W, Allocator> _sketch_array; // the array stored by the sketch
   uint64_t _seed;
   W _total_weight;
-  std::vector<uint64_t> hash_seeds;
+  using vector_u64 = std::vector<uint64_t, typename std::allocator_traits<Allocator>::template rebind_alloc<uint64_t>>;
+  vector_u64 hash_seeds;
 
   enum flags {IS_EMPTY};
   static const uint8_t PREAMBLE_LONGS_SHORT = 2; // Empty -> need second byte for sketch parameters
@@ -394,7 +395,7 @@ private:
    * @param size of the data in bytes
    * @return vector of uint64_t which each represent the index to which `value' must update in the sketch
    */
-  std::vector<uint64_t> get_hashes(const void* item, size_t size) const;
+  vector_u64 get_hashes(const void* item, size_t size) const;
 
 };
 
